@@ -14,9 +14,11 @@ import (
 	"github.com/btcsuite/btcd/btcec/v2"
 	btcecdsa "github.com/btcsuite/btcd/btcec/v2/ecdsa"
 
+	"crypto/rand"
 	"github.com/bnb-chain/tss-lib/v2/common"
 	"github.com/bnb-chain/tss-lib/v2/crypto"
 	"github.com/bnb-chain/tss-lib/v2/crypto/paillier"
+	"github.com/bnb-chain/tss-lib/v2/crypto/vss"
 	ecdsakeygen "github.com/bnb-chain/tss-lib/v2/ecdsa/keygen"
 	eddsakeygen "github.com/bnb-chain/tss-lib/v2/eddsa/keygen"
 	"github.com/bnb-chain/tss-lib/v2/tss"
@@ -537,7 +539,49 @@ func ECDSAKey(env *core.Env, n, t int, pattern string) ([]ecdsakeygen.LocalParty
 }
 
 // EDDSAKey generates a fresh (n,t) EdDSA key (cheap: never cached).
+// dealtEDDSAKey builds key data for a large committee directly (a trusted dealer in the harness: Feldman sharing with the
+// library's vss package, public shares with the reference arithmetic) - a distributed keygen for hundreds of parties is
+// too slow for a check that only needs the key as an input.
+func dealtEDDSAKey(env *core.Env, n, t int) ([]eddsakeygen.LocalPartySaveData, error) {
+	ec := tss.Edwards()
+	rg := rng(env.Seed, fmt.Sprint("dealt", n, t))
+	x := randBig(rg, ref.EdL)
+	if x.Sign() == 0 {
+		x.SetInt64(5)
+	}
+	ids := make([]*big.Int, n)
+	for i := range ids {
+		ids[i] = big.NewInt(int64(i + 1))
+	}
+	_, shares, err := vss.Create(ec, t, x, ids, rand.Reader)
+	if err != nil {
+		return nil, err
+	}
+	pubR := ref.EdBaseMul(x)
+	pub, err := crypto.NewECPoint(ec, pubR.X, pubR.Y)
+	if err != nil {
+		return nil, err
+	}
+	bigX := make([]*crypto.ECPoint, n)
+	for i, sh := range shares {
+		bigX[i] = crypto.ScalarBaseMult(ec, sh.Share)
+	}
+	out := make([]eddsakeygen.LocalPartySaveData, n)
+	for i := range out {
+		d := eddsakeygen.NewLocalPartySaveData(n)
+		d.Xi, d.ShareID = new(big.Int).Set(shares[i].Share), ids[i]
+		copy(d.Ks, ids)
+		copy(d.BigXj, bigX)
+		d.EDDSAPub = pub
+		out[i] = d
+	}
+	return out, nil
+}
+
 func EDDSAKey(env *core.Env, n, t int, pattern string, label string) ([]eddsakeygen.LocalPartySaveData, error) {
+	if pattern == "dealt" {
+		return dealtEDDSAKey(env, n, t)
+	}
 	w := sim.EDDSAKeygen(env.Seed, keyIDs(pattern, n, "ed25519", env.Seed), t)
 	w.Run(sim.FIFO, nil)
 	views, missing := viewsOf(w, "")
